@@ -275,7 +275,7 @@ def split_args(args):
     return parts
 
 
-TYPE_VARS = {'T', 'K', 'V', 'T_Value', 'T_Key', 'Self'}
+TYPE_VARS = {'T', 'K', 'V', 'T2', 'T_Value', 'T_Key', 'Self'}
 
 
 def fits(d, text):
@@ -473,7 +473,7 @@ def run(ctx: Ctx) -> None:
 
     # ---- (c) oracle: inferred declaration types vs run-time types of whole programs ----
     N = ctx.n(40, 600) * scale
-    programs = [progen.Program(src, [(name, [args], 'int')]) for name, src, args in WITNESSES] + [progen.Program(GENERICS, [('g_main', [(3,)], 'int')])]
+    programs = [progen.Program(src, [(name, [args], 'int')]) for name, src, args in WITNESSES] + [progen.Program(GENERICS, [('g_main', [(3,)], 'int')]), progen.Program(GENERICS2, [('g2_main', [(3,)], 'int')])]
     for i in range(N + len(programs)):
         p = programs[i] if i < len(programs) else progen.gen_program(rnd, rnd.randint(1, 3))
         try:
@@ -614,6 +614,74 @@ def g_main(n: int) -> int:
 	e2 = first(ss)
 	total += opt_box(GBox(1.5), n)
 	return total
+'''
+
+# inherited members of a generic base read through a subclass that binds the type variable (several times, in several orders),
+# and optional values of aliased container / class types that are subscripted, iterated and dereferenced
+GENERICS2 = '''from typing import Generic, TypeAlias, TypeVar
+
+T2 = TypeVar('T2')
+
+class HBox(Generic[T2]):
+	v: T2
+
+	def __init__(self, v: T2) -> None:
+		self.v = v
+
+	def get(self) -> T2:
+		return self.v
+
+	def size(self) -> int:
+		return 1
+
+class IntBox(HBox[int]):
+	def twice(self) -> int:
+		return self.v * 2
+
+class StrBox(HBox[str]):
+	pass
+
+class Item:
+	name: str
+
+	def __init__(self, name: str) -> None:
+		self.name = name
+
+Scores: TypeAlias = dict[str, float]
+Row: TypeAlias = list[int]
+Goods: TypeAlias = Item
+
+def boxes(n: int) -> int:
+	ib = IntBox(n)
+	a1 = ib.v
+	a2 = ib.get()
+	a3 = ib.v
+	a4 = ib.size()
+	a5 = ib.twice()
+	sb = StrBox('s')
+	b1 = sb.get()
+	b2 = sb.v
+	b3 = sb.v
+	return n
+
+def aliases(s: Scores | None, row: Row | None, g: Goods | None, n: int) -> int:
+	h = s['a'] if s else 0.5
+	r0 = row[0] if row else n
+	nm = g.name if g else 'none'
+	total = 0
+	if row is not None:
+		for x in row:
+			x_seen = x
+			total += x
+	sc: Scores = {'a': 1.5}
+	h2 = sc['a']
+	return total
+
+def g2_main(n: int) -> int:
+	t = boxes(n)
+	t += aliases({'a': 2.5}, [n, 2], Item('it'), n)
+	t += aliases(None, None, None, n)
+	return t
 '''
 
 # the refutation witnesses of Properties/C03.v as programs (replayed against the real inference on every run)
